@@ -403,6 +403,18 @@ class Expander:
                     j += 1
                 lines[i:j + 1] = then_l if cond else else_l
                 continue
+            if st.startswith('//@const'):
+                # //@const NAME file=<path> re="<regex with one group>"  -> `pub open spec fn NAME() -> int { <group 1> }`
+                rest = st[len('//@const'):].strip()
+                cname, rest = rest.split(' ', 1)
+                kv = parse_kv(rest)
+                mm = re.search(kv['re'], self.src(kv['file']).text)
+                if not mm:
+                    raise AnchorLost('constant %s: /%s/ not found in %s' % (cname, kv['re'], kv['file']))
+                self.consts = getattr(self, 'consts', {})
+                self.consts[cname] = mm.group(1)
+                lines[i] = 'pub open spec fn %s() -> int { %s }   // read from %s' % (cname, mm.group(1), kv['file'])
+                continue
             if st.startswith('//@define'):
                 k, v = st[len('//@define'):].strip().split(' ', 1)
                 self.defines[k] = v.strip()
